@@ -121,6 +121,10 @@ impl C12 {
                 }
             }
         }
+        // the native lax path and its witness (owned by C13) are exercised here as well on a quarter of the cases
+        if ctx.case % 4 == 0 {
+            super::c13::C13.native_only(ctx, class, spec, p);
+        }
         ctx.sample(class, || json!({"functor": format!("{:?}", spec), "f": show(p), "image_nodes": want.w.len(), "image_edges": want.e.len()}));
     }
 
